@@ -281,6 +281,416 @@ theorem liveBlock_sound {V} (S : Sem V) (fuel : Nat) : ∀ (ss : List Stmt) (lo 
           | returned w => exact h1
 end
 
+/-! ## Liveness soundness with loops (fixed equations of commit 4304e8f) -/
+
+theorem vsubset_mem {a b : VSet} (h : vsubset a b = true) : ∀ x, x ∈ a → x ∈ b := by
+  intro x hx
+  simp only [vsubset, List.all_eq_true, List.contains_iff_mem] at h
+  exact h x hx
+
+/-- As `OutRel`, but two runs that end in a `break` agree on `lo` as well. -/
+def OutRelB {V} (lo : VSet) : Option (Outcome V) → Option (Outcome V) → Prop
+  | none, none => True
+  | some (.normal a), some (.normal b) => Agree lo a b
+  | some (.broke a), some (.broke b) => Agree lo a b
+  | some (.returned v), some (.returned w) => v = w
+  | _, _ => False
+
+theorem iterFor_not_broke {V} (S : Sem V) (i : Name) (body : Store V → Option (Outcome V)) :
+    ∀ (left k : Nat) (ρ r : Store V), iterFor S i body left k ρ ≠ some (.broke r) := by
+  intro left
+  induction left with
+  | zero => intro k ρ r h; simp [iterFor] at h
+  | succ n ih =>
+    intro k ρ r h
+    unfold iterFor at h
+    cases hb : body (ρ.set i (.t (S.ofNat k))) with
+    | none => simp [hb] at h
+    | some o =>
+      cases o with
+      | normal ρ' => simp only [hb] at h; exact ih _ _ _ h
+      | broke ρ' => simp [hb] at h
+      | returned vs => simp [hb] at h
+
+theorem iterWhile_not_broke {V} (cond : Store V → Option Bool) (body : Store V → Option (Outcome V)) :
+    ∀ (fuel : Nat) (ρ r : Store V), iterWhile cond body fuel ρ ≠ some (.broke r) := by
+  intro fuel
+  induction fuel with
+  | zero => intro ρ r h; simp [iterWhile] at h
+  | succ n ih =>
+    intro ρ r h
+    unfold iterWhile at h
+    cases hc : cond ρ with
+    | none => simp [hc] at h
+    | some b =>
+      cases b with
+      | false => simp [hc] at h
+      | true =>
+        simp only [hc] at h
+        cases hb : body ρ with
+        | none => simp [hb] at h
+        | some o =>
+          cases o with
+          | normal ρ' => simp only [hb] at h; exact ih _ _ h
+          | broke ρ' => simp [hb] at h
+          | returned vs => simp [hb] at h
+
+mutual
+theorem noBrk_stmt {V} (S : Sem V) (fuel : Nat) : ∀ (st : Stmt), noBrkS st = true →
+    ∀ (ρ r : Store V), evalStmt S fuel st ρ ≠ some (.broke r)
+  | .assign x e, _, ρ, r, h => by
+    unfold evalStmt at h
+    cases he : evalExpr S ρ e <;> simp [he] at h
+  | .par xs es, _, ρ, r, h => by
+    unfold evalStmt at h
+    cases he : evalExprs S ρ es with
+    | none => simp [he] at h
+    | some vs =>
+      simp only [he] at h
+      by_cases hl : vs.length = xs.length <;> simp [hl] at h
+  | .tuple xs e, _, ρ, r, h => by
+    cases e with
+    | call dom op sig args attrs =>
+      unfold evalStmt at h
+      simp only at h
+      cases he : evalExprs S ρ args with
+      | none => simp [he] at h
+      | some vs =>
+        simp only [he] at h
+        cases ha : applyOp S dom op sig vs attrs with
+        | none => simp [ha] at h
+        | some rs =>
+          simp only [ha] at h
+          by_cases hl : rs.length = xs.length <;> simp [hl] at h
+    | _ => unfold evalStmt at h; simp at h
+  | .badAssign xs e, _, ρ, r, h => by unfold evalStmt at h; simp at h
+  | .ite c t e, hn, ρ, r, h => by
+    unfold noBrkS at hn
+    simp only [Bool.and_eq_true] at hn
+    unfold evalStmt at h
+    cases hc : evalExpr S ρ c with
+    | none => simp [hc] at h
+    | some cv =>
+      simp only [hc] at h
+      cases ht : truthPV S cv with
+      | none => simp [ht] at h
+      | some b =>
+        cases b with
+        | true => simp only [ht] at h; exact noBrk_block S fuel t hn.1 ρ r h
+        | false => simp only [ht] at h; exact noBrk_block S fuel e hn.2 ρ r h
+  | .for_ i ok b body, _, ρ, r, h => by
+    unfold evalStmt at h
+    by_cases hok : (!ok) = true
+    · rw [if_pos hok] at h; cases h
+    · rw [if_neg hok] at h
+      cases hb : evalExpr S ρ b with
+      | none => simp [hb] at h
+      | some bv =>
+        simp only [hb] at h
+        cases hn : natPV S bv with
+        | none => simp [hn] at h
+        | some n => simp only [hn] at h; exact iterFor_not_broke S i _ _ _ _ _ h
+  | .while_ c body, _, ρ, r, h => by
+    unfold evalStmt at h
+    exact iterWhile_not_broke _ _ _ _ _ h
+  | .brk c, hn, ρ, r, h => by unfold noBrkS at hn; cases hn
+  | .ret es b, _, ρ, r, h => by
+    unfold evalStmt at h
+    cases he : evalExprs S ρ es <;> simp [he] at h
+  | .skip, _, ρ, r, h => by unfold evalStmt at h; simp at h
+  | .unsupported, _, ρ, r, h => by unfold evalStmt at h; simp at h
+theorem noBrk_block {V} (S : Sem V) (fuel : Nat) : ∀ (ss : List Stmt), noBrkL ss = true →
+    ∀ (ρ r : Store V), evalBlock S fuel ss ρ ≠ some (.broke r)
+  | [], _, ρ, r, h => by unfold evalBlock at h; simp at h
+  | st :: ss, hn, ρ, r, h => by
+    unfold noBrkL at hn
+    simp only [Bool.and_eq_true] at hn
+    unfold evalBlock at h
+    cases hs : evalStmt S fuel st ρ with
+    | none => simp [hs] at h
+    | some o =>
+      cases o with
+      | normal ρ' => simp only [hs] at h; exact noBrk_block S fuel ss hn.2 ρ' r h
+      | broke ρ' => exact noBrk_stmt S fuel st hn.1 ρ ρ' hs
+      | returned vs => simp [hs] at h
+end
+
+theorem outRel_upgrade {V} {lo : VSet} {o1 o2 : Option (Outcome V)} (h : OutRel lo o1 o2)
+    (hn : ∀ r, o1 ≠ some (.broke r)) : OutRelB lo o1 o2 := by
+  cases o1 with
+  | none => cases o2 with
+    | none => exact trivial
+    | some b => cases b <;> exact h.elim
+  | some a =>
+    cases a with
+    | normal x => cases o2 with
+      | none => exact h.elim
+      | some b => cases b with
+        | normal y => exact h
+        | broke y => exact h.elim
+        | returned w => exact h.elim
+    | broke x => exact absurd rfl (hn x)
+    | returned v => cases o2 with
+      | none => exact h.elim
+      | some b => cases b with
+        | normal y => exact h.elim
+        | broke y => exact h.elim
+        | returned w => exact h
+
+theorem iterFor_agree {V} (S : Sem V) (i : Name) (body : Store V → Option (Outcome V)) (F Lb lo : VSet)
+    (hbody : ∀ ρ1 ρ2, Agree Lb ρ1 ρ2 → OutRelB F (body ρ1) (body ρ2))
+    (hsub : ∀ y, y ∈ Lb → y ≠ i → y ∈ F) (hlo : ∀ y, y ∈ lo → y ∈ F) :
+    ∀ (left k : Nat) (ρ1 ρ2 : Store V), Agree F ρ1 ρ2 →
+      OutRelB lo (iterFor S i body left k ρ1) (iterFor S i body left k ρ2) := by
+  intro left
+  induction left with
+  | zero => intro k ρ1 ρ2 h; simp only [iterFor]; exact h.mono hlo
+  | succ n ih =>
+    intro k ρ1 ρ2 h
+    simp only [iterFor]
+    have hb := hbody (ρ1.set i (.t (S.ofNat k))) (ρ2.set i (.t (S.ofNat k))) (by
+      intro y hy
+      unfold Store.set
+      by_cases hyi : y = i
+      · simp [hyi]
+      · simp only [hyi, if_false]; exact h y (hsub y hy hyi))
+    cases h1 : body (ρ1.set i (.t (S.ofNat k))) with
+    | none =>
+      cases h2 : body (ρ2.set i (.t (S.ofNat k))) with
+      | none => exact trivial
+      | some o2 => rw [h1, h2] at hb; cases o2 <;> exact hb.elim
+    | some o1 =>
+      cases h2 : body (ρ2.set i (.t (S.ofNat k))) with
+      | none => rw [h1, h2] at hb; cases o1 <;> exact hb.elim
+      | some o2 =>
+        rw [h1, h2] at hb
+        cases o1 with
+        | normal a => cases o2 with
+          | normal b => exact ih _ a b hb
+          | broke b => exact hb.elim
+          | returned w => exact hb.elim
+        | broke a => cases o2 with
+          | normal b => exact hb.elim
+          | broke b => exact Agree.mono hb hlo
+          | returned w => exact hb.elim
+        | returned v => cases o2 with
+          | normal b => exact hb.elim
+          | broke b => exact hb.elim
+          | returned w => exact hb
+
+theorem iterWhile_agree {V} (cond : Store V → Option Bool) (body : Store V → Option (Outcome V)) (F lo : VSet)
+    (hcond : ∀ ρ1 ρ2, Agree F ρ1 ρ2 → cond ρ1 = cond ρ2)
+    (hbody : ∀ ρ1 ρ2, Agree F ρ1 ρ2 → OutRelB F (body ρ1) (body ρ2))
+    (hlo : ∀ y, y ∈ lo → y ∈ F) :
+    ∀ (fuel : Nat) (ρ1 ρ2 : Store V), Agree F ρ1 ρ2 →
+      OutRelB lo (iterWhile cond body fuel ρ1) (iterWhile cond body fuel ρ2) := by
+  intro fuel
+  induction fuel with
+  | zero => intro ρ1 ρ2 _; simp only [iterWhile]; exact trivial
+  | succ n ih =>
+    intro ρ1 ρ2 h
+    simp only [iterWhile]
+    rw [hcond ρ1 ρ2 h]
+    cases hc : cond ρ2 with
+    | none => exact trivial
+    | some b =>
+      cases b with
+      | false => exact h.mono hlo
+      | true =>
+        simp only
+        have hb := hbody ρ1 ρ2 h
+        cases h1 : body ρ1 with
+        | none =>
+          cases h2 : body ρ2 with
+          | none => exact trivial
+          | some o2 => rw [h1, h2] at hb; cases o2 <;> exact hb.elim
+        | some o1 =>
+          cases h2 : body ρ2 with
+          | none => rw [h1, h2] at hb; cases o1 <;> exact hb.elim
+          | some o2 =>
+            rw [h1, h2] at hb
+            cases o1 with
+            | normal a => cases o2 with
+              | normal b => exact ih a b hb
+              | broke b => exact hb.elim
+              | returned w => exact hb.elim
+            | broke a => cases o2 with
+              | normal b => exact hb.elim
+              | broke b => exact Agree.mono hb hlo
+              | returned w => exact hb.elim
+            | returned v => cases o2 with
+              | normal b => exact hb.elim
+              | broke b => exact hb.elim
+              | returned w => exact hb
+
+theorem outRelB_block_step {V} (S : Sem V) (fuel : Nat) (st : Stmt) (ss : List Stmt) (lo : VSet)
+    (ρ1 ρ2 : Store V) (hn : ∀ ρ r, evalStmt S fuel st ρ ≠ some (.broke r))
+    (h1 : OutRelB (liveInBlock ss lo) (evalStmt S fuel st ρ1) (evalStmt S fuel st ρ2))
+    (hrest : ∀ a b, Agree (liveInBlock ss lo) a b → OutRelB lo (evalBlock S fuel ss a) (evalBlock S fuel ss b)) :
+    OutRelB lo (evalBlock S fuel (st :: ss) ρ1) (evalBlock S fuel (st :: ss) ρ2) := by
+  unfold evalBlock
+  cases ho1 : evalStmt S fuel st ρ1 with
+  | none =>
+    cases ho2 : evalStmt S fuel st ρ2 with
+    | none => exact trivial
+    | some o2 => rw [ho1, ho2] at h1; cases o2 <;> exact h1.elim
+  | some o1 =>
+    cases ho2 : evalStmt S fuel st ρ2 with
+    | none => rw [ho1, ho2] at h1; cases o1 <;> exact h1.elim
+    | some o2 =>
+      rw [ho1, ho2] at h1
+      cases o1 with
+      | normal a => cases o2 with
+        | normal b => exact hrest a b h1
+        | broke b => exact h1.elim
+        | returned w => exact h1.elim
+      | broke a => exact absurd ho1 (hn ρ1 a)
+      | returned v => cases o2 with
+        | normal b => exact h1.elim
+        | broke b => exact h1.elim
+        | returned w => exact h1
+
+mutual
+theorem liveStmtB {V} (S : Sem V) (fuel : Nat) : ∀ (st : Stmt) (lo : VSet) (ρ1 ρ2 : Store V),
+    noBrkS st = true → stableStmt st lo = true → Agree (liveInStmt st lo) ρ1 ρ2 →
+    OutRelB lo (evalStmt S fuel st ρ1) (evalStmt S fuel st ρ2)
+  | .assign x e, lo, ρ1, ρ2, hn, _, h =>
+    outRel_upgrade (liveStmt_sound S fuel _ lo ρ1 ρ2 (by simp [loopFree]) h) (fun r => noBrk_stmt S fuel _ hn ρ1 r)
+  | .par xs es, lo, ρ1, ρ2, hn, _, h =>
+    outRel_upgrade (liveStmt_sound S fuel _ lo ρ1 ρ2 (by simp [loopFree]) h) (fun r => noBrk_stmt S fuel _ hn ρ1 r)
+  | .tuple xs e, lo, ρ1, ρ2, hn, _, h =>
+    outRel_upgrade (liveStmt_sound S fuel _ lo ρ1 ρ2 (by simp [loopFree]) h) (fun r => noBrk_stmt S fuel _ hn ρ1 r)
+  | .badAssign xs e, lo, ρ1, ρ2, hn, _, h =>
+    outRel_upgrade (liveStmt_sound S fuel _ lo ρ1 ρ2 (by simp [loopFree]) h) (fun r => noBrk_stmt S fuel _ hn ρ1 r)
+  | .ret es b, lo, ρ1, ρ2, hn, _, h =>
+    outRel_upgrade (liveStmt_sound S fuel _ lo ρ1 ρ2 (by simp [loopFree]) h) (fun r => noBrk_stmt S fuel _ hn ρ1 r)
+  | .skip, lo, ρ1, ρ2, hn, _, h =>
+    outRel_upgrade (liveStmt_sound S fuel _ lo ρ1 ρ2 (by simp [loopFree]) h) (fun r => noBrk_stmt S fuel _ hn ρ1 r)
+  | .unsupported, lo, ρ1, ρ2, hn, _, h =>
+    outRel_upgrade (liveStmt_sound S fuel _ lo ρ1 ρ2 (by simp [loopFree]) h) (fun r => noBrk_stmt S fuel _ hn ρ1 r)
+  | .brk c, lo, ρ1, ρ2, hn, _, h => by unfold noBrkS at hn; cases hn
+  | .ite c t e, lo, ρ1, ρ2, hn, hst, h => by
+    unfold liveInStmt at h
+    unfold noBrkS at hn
+    unfold stableStmt at hst
+    simp only [Bool.and_eq_true] at hn hst
+    unfold evalStmt
+    rw [evalExpr_agree S ρ1 ρ2 c (h.mono (fun y hy => mem_vunion.mpr (Or.inr hy)))]
+    cases evalExpr S ρ2 c with
+    | none => exact trivial
+    | some cv =>
+      simp only
+      cases truthPV S cv with
+      | none => exact trivial
+      | some b =>
+        cases b with
+        | true =>
+          exact liveBlockB S fuel t lo ρ1 ρ2 hn.1 hst.1
+            (h.mono (fun y hy => mem_vunion.mpr (Or.inl (mem_vunion.mpr (Or.inl hy)))))
+        | false =>
+          exact liveBlockB S fuel e lo ρ1 ρ2 hn.2 hst.2
+            (h.mono (fun y hy => mem_vunion.mpr (Or.inl (mem_vunion.mpr (Or.inr hy)))))
+  | .for_ i ok b body, lo, ρ1, ρ2, hn, hst, h => by
+    unfold noBrkS at hn
+    unfold stableStmt at hst
+    simp only [Bool.and_eq_true] at hst
+    obtain ⟨⟨hlo, hsub⟩, hsb⟩ := hst
+    have hF : liveInStmt (.for_ i ok b body) lo
+        = vunion (loopBodyLo (.for_ i ok b body) lo) (usedVars b) := by
+      simp [liveInStmt, loopBodyLo]
+    rw [hF] at h
+    unfold evalStmt
+    by_cases hok : (!ok) = true
+    · rw [if_pos hok, if_pos hok]; exact trivial
+    · rw [if_neg hok, if_neg hok]
+      rw [evalExpr_agree S ρ1 ρ2 b (h.mono (fun y hy => mem_vunion.mpr (Or.inr hy)))]
+      cases evalExpr S ρ2 b with
+      | none => exact trivial
+      | some bv =>
+        simp only
+        cases natPV S bv with
+        | none => exact trivial
+        | some n =>
+          simp only
+          refine iterFor_agree S i _ (loopBodyLo (.for_ i ok b body) lo)
+            (liveInBlock body (loopBodyLo (.for_ i ok b body) lo)) lo ?_ ?_ (vsubset_mem hlo) n 0 ρ1 ρ2
+            (h.mono (fun y hy => mem_vunion.mpr (Or.inl hy)))
+          · intro a c hac
+            exact liveBodyB S fuel body _ a c hn hsb hac
+          · intro y hy hyi
+            exact vsubset_mem hsub y (mem_vdiff.mpr ⟨hy, by simpa using hyi⟩)
+  | .while_ c body, lo, ρ1, ρ2, hn, hst, h => by
+    unfold noBrkS at hn
+    unfold stableStmt at hst
+    simp only [Bool.and_eq_true] at hst
+    obtain ⟨⟨⟨hlo, hcs⟩, hsub⟩, hsb⟩ := hst
+    have hF : liveInStmt (.while_ c body) lo = loopBodyLo (.while_ c body) lo := by
+      simp [liveInStmt, loopBodyLo]
+    rw [hF] at h
+    unfold evalStmt
+    refine iterWhile_agree _ _ (loopBodyLo (.while_ c body) lo) lo ?_ ?_ (vsubset_mem hlo) fuel ρ1 ρ2 h
+    · intro a d had
+      show (match evalExpr S a c with | some v => truthPV S v | none => none)
+        = (match evalExpr S d c with | some v => truthPV S v | none => none)
+      rw [evalExpr_agree S a d c (had.mono (vsubset_mem hcs))]
+    · intro a d had
+      exact liveBodyB S fuel body _ a d hn hsb (had.mono (vsubset_mem hsub))
+theorem liveBlockB {V} (S : Sem V) (fuel : Nat) : ∀ (ss : List Stmt) (lo : VSet) (ρ1 ρ2 : Store V),
+    noBrkL ss = true → stableBlock ss lo = true → Agree (liveInBlock ss lo) ρ1 ρ2 →
+    OutRelB lo (evalBlock S fuel ss ρ1) (evalBlock S fuel ss ρ2)
+  | [], lo, ρ1, ρ2, _, _, h => by
+    unfold liveInBlock at h
+    unfold evalBlock
+    exact h
+  | st :: ss, lo, ρ1, ρ2, hn, hst, h => by
+    unfold liveInBlock at h
+    unfold noBrkL at hn
+    unfold stableBlock at hst
+    simp only [Bool.and_eq_true] at hn hst
+    exact outRelB_block_step S fuel st ss lo ρ1 ρ2 (fun ρ r => noBrk_stmt S fuel st hn.1 ρ r)
+      (liveStmtB S fuel st _ ρ1 ρ2 hn.1 hst.1 h)
+      (fun a b hab => liveBlockB S fuel ss lo a b hn.2 hst.2 hab)
+theorem liveBodyB {V} (S : Sem V) (fuel : Nat) : ∀ (ss : List Stmt) (lo : VSet) (ρ1 ρ2 : Store V),
+    bodyBrkOK ss = true → stableBlock ss lo = true → Agree (liveInBlock ss lo) ρ1 ρ2 →
+    OutRelB lo (evalBlock S fuel ss ρ1) (evalBlock S fuel ss ρ2)
+  | [], lo, ρ1, ρ2, _, _, h => by
+    unfold liveInBlock at h
+    unfold evalBlock
+    exact h
+  | st :: ss, lo, ρ1, ρ2, hn, hst, h => by
+    unfold liveInBlock at h
+    unfold stableBlock at hst
+    simp only [Bool.and_eq_true] at hst
+    by_cases hb : (∃ c, st = .brk c) ∧ ss = []
+    · obtain ⟨⟨c, rfl⟩, rfl⟩ := hb
+      simp only [liveInBlock, liveInStmt] at h
+      simp only [evalBlock, evalStmt]
+      rw [evalExpr_agree S ρ1 ρ2 c (h.mono (fun y hy => mem_vunion.mpr (Or.inr hy)))]
+      cases evalExpr S ρ2 c with
+      | none => exact trivial
+      | some cv =>
+        simp only
+        cases truthPV S cv with
+        | none => exact trivial
+        | some b =>
+          cases b with
+          | true => exact h.mono (fun y hy => mem_vunion.mpr (Or.inl hy))
+          | false => exact h.mono (fun y hy => mem_vunion.mpr (Or.inl hy))
+    · have hns : noBrkS st = true ∧ bodyBrkOK ss = true := by
+        unfold bodyBrkOK at hn
+        simp only [Bool.and_eq_true] at hn
+        refine ⟨?_, hn.2⟩
+        cases st with
+        | brk c =>
+          cases ss with
+          | nil => exact absurd ⟨⟨c, rfl⟩, rfl⟩ hb
+          | cons s2 ss2 => simpa using hn.1
+        | _ => simpa using hn.1
+      exact outRelB_block_step S fuel st ss lo ρ1 ρ2 (fun ρ r => noBrk_stmt S fuel st hns.1 ρ r)
+        (liveStmtB S fuel st _ ρ1 ρ2 hns.1 hst.1 h)
+        (fun a b hab => liveBodyB S fuel ss lo a b hns.2 hst.2 hab)
+end
+
 /-! ## Graph evaluation of control-flow-free node lists does not depend on the fuel -/
 
 theorem evalNodes_opsOnly_fuel {V : Type} (S : Sem V) (f1 f2 : Nat) :
